@@ -72,26 +72,75 @@ def _with_env_defaults(case):
     return case
 
 
+def gen_republish_diamond(D):
+    """The version-based merge at a join: the root publishes a scalar x and
+    a nested d{a, b}; k parallel branches (1-2 tasks) inherit them; exactly
+    one branch republishes x and / or d (whole value, or - through an
+    expression - one leaf of it); a full join and a tail read everything and
+    the workflow output returns it.  No two unordered tasks publish the same
+    variable, so the result is a function of the definition alone, whatever
+    order the upstream rows are listed in."""
+    from mv.gen import workflows as G
+    from mv.props import c05
+    prog, outc = c05.gen_diamond(D, G)
+    prog['republish_diamond'] = True
+    prog.pop('diamond', None)
+    prog.pop('pub_p', None)
+    prog['lang'] = 'yaql'
+    t = prog['tasks']
+    t['r']['publish'] = {'x': 'tok:r:x',
+                         'd': {'a': 'tok:r:d.a', 'b': 'tok:r:d.b'}}
+    branches = [n for n in prog['order'] if n.startswith('b')]
+    heads = sorted({n.split('_')[0] for n in branches})
+    who = D.choice(heads)
+    cand = [n for n in branches if n.split('_')[0] == who]
+    pub = {}
+    if D.bool(0.7):
+        how = D.int(0, 2)
+        if how == 0:
+            pub['d'] = {'a': 'tok:%s:d.a' % who, 'b': 'tok:%s:d.b' % who}
+        elif how == 1:
+            pub['d'] = {'a': 'tok:%s:d.a' % who, 'b': 'tok:r:d.b'}
+        else:
+            pub['d'] = '<% $.d.set(a, "tok:' + who + ':d.a") %>'
+    if D.bool(0.5) or not pub:
+        pub['x'] = 'tok:%s:x' % who
+    t[D.choice(cand)]['publish'] = pub
+    prog['output_raw'] = {
+        'x': '<% $.get(x, none) %>',
+        'd.a': '<% $.get(d, dict()).get(a, none) %>',
+        'd.b': '<% $.get(d, dict()).get(b, none) %>'}
+    if 'tail' in t:
+        t['tail']['publish'] = {'seen_x': '<% $.get(x, none) %>',
+                                'seen_d': '<% $.get(d, none) %>'}
+    t['j']['publish'] = {'j_x': '<% $.get(x, none) %>',
+                         'j_da': '<% $.get(d, dict()).get(a, none) %>'}
+    return prog, outc
+
+
 def check_case(case, stats=None, n_shuffles=3, dfs_cap=0):
     from mv import enginerun
     from mv.gen import workflows as G
     from mv.ref import wfsem
     prog = case['prog']
-    model = wfsem.model_for(prog, case.get('input'), case['outcomes'])
-    try:
-        allowed = model.outcomes_set()
-    except wfsem.TooBig:
-        if stats:
-            stats.counters['excluded_model_too_big'] += 1
-        return []
-    if model.retrigger_possible:
-        if stats:
-            stats.counters['excluded_known_shape_join_retrigger'] += 1
-        return []
-    if len(allowed) != 1:
-        if stats:
-            stats.counters['excluded_not_confluent_by_reference'] += 1
-        return []
+    if not prog.get('republish_diamond'):
+        # (the republish diamond is confluent by construction: full join,
+        # all tasks succeed, every variable republished by one branch only)
+        model = wfsem.model_for(prog, case.get('input'), case['outcomes'])
+        try:
+            allowed = model.outcomes_set()
+        except wfsem.TooBig:
+            if stats:
+                stats.counters['excluded_model_too_big'] += 1
+            return []
+        if model.retrigger_possible:
+            if stats:
+                stats.counters['excluded_known_shape_join_retrigger'] += 1
+            return []
+        if len(allowed) != 1:
+            if stats:
+                stats.counters['excluded_not_confluent_by_reference'] += 1
+            return []
     tg = G.tags(prog, case['outcomes'])
     concurrent = any(t in tg for t in ('has_fork', 'has_join', 'multi_start'))
     runs = []
@@ -203,6 +252,18 @@ def shard_main(shard, nshards, seed, tier, opts):
     strat = common.engine_case_strategy(max_tasks=opts.get('max_tasks', 7),
                                         max_devs=opts.get('max_devs', 6))
     strat = strat.map(_with_env_defaults)
+    from hypothesis import strategies as st_
+    from mv.gen.draw import HDraw
+    from mv import enginerun as _er
+
+    @st_.composite
+    def diamond(draw):
+        D = HDraw(draw)
+        prog, outc = gen_republish_diamond(D)
+        return {'prog': prog, 'outcomes': outc, 'input': {},
+                'sched': _er.gen_schedule(D, max_devs=6),
+                'salt': D.int(0, 50)}
+    strat = st_.one_of(strat, strat, strat, strat, diamond())
     fail = runner.drive(
         strat, lambda c: check_case(c, st, opts.get('n_shuffles', 3),
                                     opts.get('dfs_cap', 0)),
